@@ -60,7 +60,25 @@ Theorem enter_fires_all_overdue : forall t s, s_now s < t ->
 Proof. exact enter_fires_all_overdue. Qed.
 Print Assumptions enter_fires_all_overdue.
 
-(* NOT PROVED YET (see docs/areas/Sched-proofs.md): the armed-timeout invariants
-   armed_when_unwaited : alive o, o_waiters = 0, o_mayexist = false -> o_cleanup <> None
-   worker_attended     : every worker has k_cleanup <> None or a Synchronize call naming it
-   (both are what Spec.c06_dump checks on the implementation's dumps). *)
+(* armed_when_unwaited: in every reachable state, a registered operation that
+   nobody waits on and whose existence a client knows of has its removal
+   scheduled (background-learning operations the client never heard of are
+   exempt until their task is handed over) ... *)
+Theorem armed_when_unwaited : forall cfg t0 evs o x,
+  fresh_calls [] evs -> let s := fst (run (init cfg t0) evs) in
+  aget Nat.eqb o (s_ops s) = Some x -> o_waiters x = O -> o_mayexist x = false -> o_cleanup x <> None.
+Proof. exact armed_when_unwaited_all. Qed.
+Print Assumptions armed_when_unwaited.
+
+(* ... which is the operation part of the monitor Spec.c06_dump evaluated on the model's own dump. *)
+Theorem c06_ops_ok : forall cfg t0 evs, fresh_calls [] evs ->
+  let s := fst (run (init cfg t0) evs) in
+  forallb (fun o => negb (Nat.eqb (do_waiters o) 0 && negb (do_mayexist o)
+                          && match do_cleanup o with None => true | Some _ => false end))
+          (d_ops (observe s)) = true.
+Proof. exact c06_ops_ok. Qed.
+Print Assumptions c06_ops_ok.
+
+(* NOT PROVED YET (see docs/areas/Sched-proofs.md):
+   worker_attended : every worker has k_cleanup <> None or a Synchronize call naming it;
+   the queue / empty-invocation parts of Spec.c06_dump; c06_final (gc_complete). *)
